@@ -505,15 +505,125 @@ func (w *fwWorld) aim(r nebula.VerifFwRule, peer *nebula.VerifFwCert, p *firewal
 	}
 }
 
+// ---- boundary corpus: port ranges at the edges of the port space ------------------------------------
+// The full range 1-65535 is 65535 separate port entries and is NOT "any": it must not admit non-first fragments, nor
+// (under proto any) ICMP / ICMPv6. Shared by fwrules (AddRule) and fwconfig (port text).
+
+type fwRangeSet struct {
+	name   string
+	ranges [][2]int32
+}
+
+var fwEdgeRanges = []fwRangeSet{
+	{"1-65535", [][2]int32{{1, 65535}}}, {"1-65534", [][2]int32{{1, 65534}}}, {"2-65535", [][2]int32{{2, 65535}}},
+	{"0-65535", [][2]int32{{0, 65535}}}, {"1-32767+32768-65535", [][2]int32{{1, 32767}, {32768, 65535}}},
+}
+
+// Each 1-65535 AddRule allocates 65535 CA/rule nodes in the real firewall (about a second on a busy machine), so the quick
+// tier keeps inbound only: 1-65535 for tcp and any, the other four range sets for any; the thorough tier runs the full
+// product (tcp/udp/any x five range sets x both directions).
+func fwEdgeWanted(tier string, incoming bool, proto string, rangeIdx int) bool {
+	if tier == "thorough" {
+		return true
+	}
+	return incoming && (proto == "any" || (proto == "tcp" && rangeIdx == 0))
+}
+
+var fwEdgePeer = nebula.VerifFwCert{Name: "nobody", Issuer: "s9", Networks: []netip.Prefix{netip.MustParsePrefix("10.0.0.77/24")}}
+
+// fwEdgePackets: non-first fragments, ordinary (first-fragment / unfragmented) packets, ICMP, ICMPv6, TCP and UDP at
+// ports 0, 1, 65535 and in between, another protocol.
+func fwEdgePackets() []firewall.Packet {
+	base := firewall.Packet{LocalAddr: netip.MustParseAddr("10.0.0.1"), RemoteAddr: netip.MustParseAddr("10.0.0.77")}
+	var out []firewall.Packet
+	for _, proto := range []uint8{nebula.VerifFwProtoTCP, nebula.VerifFwProtoUDP} {
+		for _, port := range []uint16{0, 1, 2, 80, 32767, 32768, 65534, 65535} {
+			p := base
+			p.Protocol, p.LocalPort, p.RemotePort = proto, port, port
+			out = append(out, p)
+		}
+		f := base
+		f.Protocol, f.Fragment = proto, true // non-first fragment: no ports
+		out = append(out, f)
+		f.LocalPort, f.RemotePort = 80, 80
+		out = append(out, f)
+	}
+	for _, proto := range []uint8{nebula.VerifFwProtoICMP, nebula.VerifFwProtoICMPv6, 47} {
+		p := base
+		p.Protocol = proto
+		out = append(out, p)
+		p.RemotePort = 7 // ICMP identifier
+		out = append(out, p)
+		p.LocalPort, p.RemotePort = 80, 80
+		out = append(out, p)
+		p.Fragment = true
+		out = append(out, p)
+	}
+	return out
+}
+
 func runFwRules(c *hx.Ctx, addrFocus bool) {
 	check := "Firewall_corr.check_c16"
 	if addrFocus {
 		check = "Firewall_corr.check_c17"
 	}
 	cw := c.NewCaseWriter("From NV Require Import lib.Ip model.Firewall corr.Firewall_corr.", "Firewall_corr.case", check, 80)
-	nCases := c.N
+	type edgeCase struct {
+		rules []nebula.VerifFwRule
+		name  string
+	}
+	var corpus []edgeCase
+	if !addrFocus {
+		for _, incoming := range []bool{true, false} {
+			for _, proto := range []uint8{nebula.VerifFwProtoTCP, nebula.VerifFwProtoUDP, nebula.VerifFwProtoAny} {
+				for ri, rs := range fwEdgeRanges {
+					if !fwEdgeWanted(c.Tier, incoming, map[uint8]string{nebula.VerifFwProtoTCP: "tcp", nebula.VerifFwProtoUDP: "udp", nebula.VerifFwProtoAny: "any"}[proto], ri) {
+						continue
+					}
+					var rules []nebula.VerifFwRule
+					for _, se := range rs.ranges {
+						rules = append(rules, nebula.VerifFwRule{Incoming: incoming, Proto: proto, Start: se[0], End: se[1], Host: "any"})
+					}
+					corpus = append(corpus, edgeCase{rules, rs.name})
+				}
+			}
+		}
+	}
+	nCases := c.N + len(corpus)
 	for ci := 0; ci < nCases; ci++ {
 		w := &fwWorld{c: c}
+		if ci < len(corpus) {
+			// boundary corpus case: fixed certificate, fixed rules, fixed probes
+			ec := corpus[ci]
+			w.my = nebula.VerifFwCert{Name: "me", Networks: []netip.Prefix{mp("10.0.0.1/24")}}
+			fw := nebula.VerifNewFirewall(w.my, false)
+			var ruleLits, jrules, probeLits []string
+			for _, r := range ec.rules {
+				err := fw.AddRule(r)
+				ruleLits = append(ruleLits, hx.Tuple(hx.Bool(r.Incoming), fwRuleLit(r), hx.Bool(err == nil)))
+				jrules = append(jrules, fmt.Sprintf("%+v", r))
+			}
+			hp := fw.NewPeer(fwEdgePeer)
+			var jprobes []map[string]any
+			nAllow, nNoRule := 0, 0
+			for _, pkt := range fwEdgePackets() {
+				fw.ResetConntrack()
+				class, before, after := fw.Drop(pkt, ec.rules[0].Incoming, hp, nil)
+				if class == nebula.VerifFwAllow {
+					nAllow++
+				}
+				if class == nebula.VerifFwNoRule {
+					nNoRule++
+				}
+				probeLits = append(probeLits, hx.App("mkProbe", hx.Bool(true), fwCertLit(fwEdgePeer), fwPktLit(pkt), hx.Bool(ec.rules[0].Incoming), hx.Bool(false),
+					hx.Bool(before), hx.N(uint64(class)), hx.Bool(after)))
+				jprobes = append(jprobes, map[string]any{"pkt": fmt.Sprintf("%+v", pkt), "incoming": ec.rules[0].Incoming, "class": class})
+			}
+			lit := hx.App("CFw", hx.App("mkConf", fwPfxList(w.my.Networks), fwPfxList(w.my.Unsafe), hx.Bool(false)),
+				hx.List(ruleLits), hx.List(nil), hx.List(probeLits))
+			cw.Add(lit, "corpus-port-range-"+ec.name, nAllow > 0 && nNoRule > 0, map[string]any{"my": fmt.Sprintf("%+v", w.my), "rules": jrules, "probes": jprobes})
+			continue
+		}
 		// my certificate
 		w.my.Name = "me"
 		w.my.Networks = []netip.Prefix{mp(fwPickStr(c, fwMyNets4[:3]))}
